@@ -113,7 +113,17 @@ impl OperatorsBinder {
             }
             other => panic!("Operators: unknown action {other}"),
         };
-        let auths: Vec<(Address, Inv)> = auth_names.iter().map(|n| (self.cx.addr(n), Inv::new(&ops, func, args.clone()))).collect();
+        let mut auths: Vec<(Address, Inv)> = auth_names.iter().map(|n| (self.cx.addr(n), Inv::new(&ops, func, args.clone()))).collect();
+        // `scoped`: principals whose authorisation entry names this entry point but carries ONLY the
+        // forwarded argument list (it does not say which target or function) - it authorises nothing
+        if let Some(sc) = act.get("scoped").and_then(|x| x.as_array()) {
+            if name == "Execute" {
+                let inner: SVec<Val> = SVec::try_from_val(&env, &args.get(3).unwrap()).unwrap();
+                for n in sc {
+                    auths.push((self.cx.addr(n.as_str().unwrap()), Inv::new(&ops, func, inner.clone())));
+                }
+            }
+        }
         let r = self.cx.call_auth(&auths, &ops, func, args);
         let raw = self.cx.take_events();
         let mut ev = vec![];
